@@ -648,8 +648,22 @@ func (c *Ctx) genC10() {
 			key := c.structuredKey(d.bc.KeySize(), pi)
 			xmlenc.RandReader = &detReader{c: c}
 			var el *etree.Element
+			// the optional nonce argument of Encrypt (used by GCM, handed through by the key-transport layer): whatever the
+			// caller supplies — nothing, a GCM-sized nonce, exactly one block, more — what comes out must decrypt to the plaintext
+			var nonce []byte
+			switch pi % 5 {
+			case 1:
+				nonce = c.randBytes(12)
+			case 2:
+				nonce = c.randBytes(d.bs)
+			case 3:
+				nonce = c.randBytes(d.bs + 4)
+			case 4:
+				nonce = c.randBytes(8)
+			}
+			c.count("c10-supplied-nonce", fmt.Sprintf("%s/%d", d.name, len(nonce)))
 			res := safely(func() string {
-				e, err := d.bc.Encrypt(key, p, nil)
+				e, err := d.bc.Encrypt(key, p, nonce)
 				if err != nil {
 					return "err " + pct(err.Error())
 				}
